@@ -29,7 +29,12 @@ CheckCase(c) ==
               IF Len(reps[c.r].recs) = 0 THEN Verdict(id, c.fmt \o " cut at " \o c.cutinfo \o ": no complete record, yet a result was returned", FALSE)
               ELSE IF ObsSeqMatches(c, reps) THEN TRUE
               \* named deviation (recorded finding): the last, partial record was accepted as if complete
-              ELSE IF Len(reps[c.r].recs) < Len(c.reps[c.r].recs) /\ ObsSeqMatches(c, Truncated(c.reps, c.r, c.bounds, c.bounds[Len(reps[c.r].recs) + 1][2]))
+              \* (the first record that does not precede the cut: the one after the kept prefix of a multi-record file, or the file that was cut
+              \*  when every configuration has its own file)
+              ELSE IF Len(reps[c.r].recs) < Len(c.reps[c.r].recs) /\
+                      LET kept == Kept(c.reps[c.r], c.bounds, c.cut)
+                          first == Min({i \in DOMAIN c.reps[c.r].recs : \A q \in DOMAIN kept : kept[q] # i})
+                      IN ObsSeqMatches(c, Truncated(c.reps, c.r, c.bounds, c.bounds[first][2]))
                    THEN Known(id, c.known)
               ELSE CheckRead(id, c, reps, c.fmt \o " cut at " \o c.cutinfo)
     [] OTHER -> Verdict(id, "unknown-event", FALSE)
